@@ -1395,7 +1395,7 @@ func simplifyC19(p *Plan) []*Plan {
 func init() {
 	register(&Profile{
 		ID: "C19", Name: "idpserver", Level: "fault_enumeration",
-		Rule: "histories of 6-17 operations over {put/delete user (with/without/empty password), put/delete service (3 SP identities, 3 names, invalid body), put/delete shortcut, login (right/wrong/empty/other user's password), SSO (redirect/post, cookie of slot k / none / forged, or credentials), shortcut launch, delete session, advance clock (incl. to session expiry -1ms/0/+1ms), list/get calls, restart} are sampled from the seed; for EACH history the check runs (i) the fault-free history against the strict reference model, (ii) a server re-created over the store after EVERY position, compared step by step with the original's outcome classes, (iii) EVERY store call index x {not-found, I/O error before apply, I/O error after apply, process crash at that call, process crash right after the call applied} as a single injected fault (a crash abandons the request without a reply and a new server starts over what the store holds) against the relaxed model; evaluations = sampled histories (extra.restart_positions and extra.fault_placements count the enumerated forks); non-trivial = the reference run contains an authentication decision (assertion, session, login form or error); distinct = distinct abstract reference log; after a truthful store failure (I/O error before apply) a twin server restarted at that moment serves the rest of the history and must answer like the original; PUT /users may omit attributes; targeted tails: replace-record-then-login-then-SSO, and login / advance to session expiry -1ms..+999ms / use cookie; thorough tier: 2-4 random multi-fault forks per history",
+		Rule: "histories of 6-17 operations over {put/delete user (with/without/empty password), put/delete service (3 SP identities, 3 names, invalid body), put/delete shortcut, login (right/wrong/empty/other user's password), SSO (redirect/post, cookie of slot k / none / forged, or credentials), shortcut launch, delete session, advance clock (incl. to session expiry -1ms/0/+1ms), list/get calls, restart} are sampled from the seed; for EACH history the check runs (i) the fault-free history against the strict reference model, (ii) a server re-created over the store after EVERY position, compared step by step with the original's outcome classes, (iii) EVERY store call index x {not-found, I/O error before apply, I/O error after apply, process crash at that call, process crash right after the call applied} as a single injected fault (a crash abandons the request without a reply and a new server starts over what the store holds) against the relaxed model; evaluations = sampled histories (extra.restart_positions and extra.fault_placements count the enumerated forks); non-trivial = the reference run contains an authentication decision (assertion, session, login form or error); distinct = distinct abstract reference log; after a truthful store failure (I/O error before apply) a twin server restarted at that moment serves the rest of the history and must answer like the original; PUT /users may omit attributes; targeted tails: replace-record-then-login-then-SSO, and login / advance to session expiry -1ms..+999ms / use cookie; thorough tier: 2-4 random multi-fault forks per history; logins may present a planted or stale cookie (a session whose ID equals a value the client chose is a violation); passwords of exactly 72 and of 100 bytes with near-miss logins (password+tail, first 72 bytes+other tail); PUT /users bodies may name another user; targeted scenarios for each",
 		Gen:  genC19, Exec: execC19, Simplify: simplifyC19,
 		RunsQuick: 160, RunsThorough: 16000,
 		Assumptions: []string{"emitted assertions are decoded by the real SP the form addresses (request correlation disabled in that monitor)", "session expiry is read from the session object the server stores, not from a constant", "after an injected store error requests are checked for safety only (no unauthorised assertion/session, no hash disclosure, one well-formed reply)", "bcrypt, RSA padding randomness are not behind a seam and never enter the abstract log"},
